@@ -39,7 +39,7 @@ MANIFEST = dict(
     ref="DESIGN.md section 7 C05")
 
 CLASS = {
-    "element": ("C05:interp:", "C05:outside:", "C05:scalar-vector:", "C05:energy-wavelength:", "C05:xray_wavelength",
+    "element": ("C05:interp:", "C05:file:", "C05:outside:", "C05:scalar-vector:", "C05:energy-wavelength:", "C05:xray_wavelength",
                 "C05:energy-wavelength-roundtrip"),
     "no-table": (),
     "compounds": ("C05:sld-", "C05:density-linearity", "C05:isotope-", "C05:refraction-formula", "C05:reflectivity-range",
